@@ -10,7 +10,9 @@
    rewrites the argument of [2,1] to row 2, its own row -- ill-formed, not
    executable.  libstdc++'s red-black tree makes exactly these choices: the
    check replays this individual on the real code (on the pinned comparator it
-   prints [2,1] G 2; on the repaired one G 3, as [w_new_verdict] computes). *)
+   prints [2,1] G 2; on the current one G 3, as [w_new_verdict] computes).
+   [gene_cmp] is the comparator after that repair (parameters compared with
+   operator<), [gene_cmp_mem] the current one (std::memcmp of the parameter). *)
 From Coq Require Import ZArith List Bool.
 Local Ltac c02_scan0 := idtac. (* separates the Require lines for the dependency scanner of lib/vv.py *)
 From VV Require Import Base.F64 Mep.Genome Mep.OpsDefs Mep.CseProofs Mep.CseAnyDefs Mep.CseAnyProofs.
